@@ -79,23 +79,31 @@ def run(ck, ix, tier):
     # ------------------------------------------------------------ numeric type: literals never pass through float
     fi = ix.func(U, "ParserHelper.eval_token")
     ck.analysed(fi)
-    tests = [t for t in walk_local(fi.node) if isinstance(t, ast.If) and norm(t.test) == "non_int_type is float"]
-    ck.check(len(tests) == 1, "G-PROV", "eval_token|float-registry-test", fi.loc(), "float registries are distinguished", "the `non_int_type is float` case split is gone")
-    for t in tests:
-        exact = [r for s_ in t.orelse for r in ast.walk(s_) if isinstance(r, ast.Return)]
-        ck.floor("G-PROV", len(exact), 1, "return in the non-float branch of eval_token")
-        for r in exact:
-            v = r.value
-            ok = isinstance(v, ast.Call) and norm(v.func) == "non_int_type" and len(v.args) == 1 and norm(v.args[0]) in ("token_text", "token.string")
-            ck.check(ok, "G-PROV", "eval_token|literal-text-to-non_int_type", fi.loc(r), "the token text is handed to non_int_type unchanged",
-                     f"`{norm(r)}`: in Decimal/Fraction registries a numeric literal must be converted from its text by non_int_type (no float/int detour)")
-        bad = [c for s_ in t.orelse for c in ast.walk(s_) if isinstance(c, ast.Call) and call_name(c) in ("float", "int", "eval", "complex")]
-        ck.check(not bad, "G-PROV", "eval_token|no-float-detour-in-exact-registries", fi.loc(bad[0]) if bad else fi.loc(t), "no float()/int() in the exact branch",
-                 f"`{norm(bad[0]) if bad else ''}` converts the literal through a binary float/int in a Decimal/Fraction registry")
-        ints = [c for s_ in t.body for c in ast.walk(s_) if isinstance(c, ast.Call) and call_name(c) == "int"]
-        floats = [c for s_ in t.body for c in ast.walk(s_) if isinstance(c, ast.Call) and call_name(c) == "float"]
-        ok = bool(ints) and bool(floats) and ints[0].lineno < floats[0].lineno
-        ck.check(ok, "G-PROV", "eval_token|integers-stay-integers", fi.loc(t), "int() is tried before float()", "in float registries integer literals are no longer tried as int first")
+    # by facts, not by branch shape: every return / conversion call is classified by whether `non_int_type is float`
+    # is known to hold (or not) where it executes
+    is_float = lambda a_: norm(a_) in ("non_int_type is float", "float is non_int_type")
+    isnt_float = lambda a_: norm(a_) in ("non_int_type is not float", "float is not non_int_type")
+    fl = lambda n_: shape.holds_at(n_, fi.node, is_float, True) or shape.holds_at(n_, fi.node, isnt_float, False)
+    ex = lambda n_: shape.holds_at(n_, fi.node, is_float, False) or shape.holds_at(n_, fi.node, isnt_float, True)
+    allr = [r for r in shape.returns_of(fi.node)]
+    ck.check(any(fl(r) for r in allr) or any(ex(r) for r in allr), "G-PROV", "eval_token|float-registry-test", fi.loc(), "float registries are distinguished", "the `non_int_type is float` case split is gone")
+    exact = [r for r in allr if ex(r)]
+    ck.floor("G-PROV", len(exact), 1, "return in the non-float branch of eval_token")
+    for r in exact:
+        v = r.value
+        ok = isinstance(v, ast.Call) and norm(v.func) == "non_int_type" and len(v.args) == 1 and shape.rnorm(v.args[0], fi.node) == "token.string"
+        ck.check(ok, "G-PROV", "eval_token|literal-text-to-non_int_type", fi.loc(r), "the token text is handed to non_int_type unchanged",
+                 f"`{norm(r)}`: in Decimal/Fraction registries a numeric literal must be converted from its text by non_int_type (no float/int detour)")
+    convs = [c for c in walk_local(fi.node) if isinstance(c, ast.Call) and call_name(c) in ("float", "int", "eval", "complex")]
+    bad = [c for c in convs if ex(c)]
+    ck.check(not bad, "G-PROV", "eval_token|no-float-detour-in-exact-registries", fi.loc(bad[0]) if bad else fi.loc(), "no float()/int() in the exact branch",
+             f"`{norm(bad[0]) if bad else ''}` converts the literal through a binary float/int in a Decimal/Fraction registry")
+    ok = False
+    for t in [t for t in walk_local(fi.node) if isinstance(t, ast.Try)]:
+        in_body = [c for s_ in t.body for c in ast.walk(s_) if isinstance(c, ast.Call) and call_name(c) == "int" and fl(c)]
+        in_handler = [c for h in t.handlers for c in ast.walk(h) if isinstance(c, ast.Call) and call_name(c) == "float"]
+        ok = ok or (bool(in_body) and bool(in_handler))
+    ck.check(ok, "G-PROV", "eval_token|integers-stay-integers", fi.loc(), "int() is tried before float()", "in float registries integer literals are no longer tried as int first")
     fi = ix.func(PR, "GenericPlainRegistry._eval_token")
     ck.analysed(fi)
     src = norm(fi.node)
